@@ -116,7 +116,9 @@ func OracleC04(tr *Trace) Verdict {
 			// no longer leader once the call has returned (unless a new promotion was logged during the call)
 			rePromoted := false
 			for _, c := range claims {
-				if c.Obj == a.Obj && c.FromSeq > a.CallSeq && c.FromSeq <= a.RetSeq {
+				// (a promotion in the very instant of the return counts as well: the harness samples IsLeader() a
+				// moment after the library's return, and a re-acquisition that was runnable gets in between)
+				if c.Obj == a.Obj && c.FromSeq > a.CallSeq && (c.FromSeq <= a.RetSeq || c.FromT <= a.RetT) {
 					rePromoted = true
 				}
 			}
